@@ -285,3 +285,37 @@ theorem genTestWKTLoop_pin :
   decide +kernel
 
 end GeomV.C20
+
+/-! ## the assembly -/
+namespace GeomV.C20
+open Num
+section
+variable {α : Type} [Num α]
+
+/-- `DeriveConstants` with the regenerated arithmetic between the hand-modelled table lookups and the datum object -/
+def deriveConstantsGen (sr : SR α) : Except Err (SR α) := attachDatum (genDeriveArith (dcEllps (dcDatum sr)))
+
+/-- **parseDef_gen** — `proj.Parse` of a text that is not a registered name, ASSEMBLED FROM THE REGENERATED PARTS: the code
+words of `testWKT`; for WKT the section reader followed by the regenerated tail of `wkt()`; for PROJ.4 the loop over the
+`+key=value` items with the regenerated switch and the regenerated statement after the loop; then `DeriveConstants` with its
+regenerated arithmetic.  It IS the model's `parseDef`, so every theorem about `parse` (`C20_parse_agree`,
+`C20_transform_agree`, …) is a theorem about this assembly. -/
+theorem parseDef_gen (c : Str) :
+    parseDef (α := α) c =
+      if genCodeWords.any (fun w => containsSub c w.toList) then
+        (match parseWKTSection (c.length + 1) [] c newSR with
+         | (_, some e) => .error e
+         | (sr, none) => .ok (genWktFinish sr)) >>= deriveConstantsGen
+      else if testProj c then
+        (do let sr ← foldKVs' (fun sr seg => genProjKV sr (itemKV seg).1 (itemKV seg).2) newSR ((splitOn '+' c).drop 1)
+            pure (genLowerDatum sr)) >>= deriveConstantsGen
+      else .error (.error "unsupported projection definition") := by
+  have hd : (deriveConstants : SR α → Except Err (SR α)) = deriveConstantsGen := by
+    funext sr; unfold deriveConstants deriveConstantsGen; rw [deriveCore_gen]
+  unfold parseDef
+  rw [genCodeWords_eq, wkt_gen, projString_gen, hd]
+  all_goals
+    rcases parseWKTSection (α := α) (c.length + 1) [] c newSR with ⟨sr, e⟩
+    cases e <;> rfl
+end
+end GeomV.C20
